@@ -1,6 +1,7 @@
 SPECIFICATION Spec
 CONSTANTS K = 3
           KO = 0
+          SK = 2
           W = 0
           Ext = FALSE
           ValSet = "plain"
